@@ -296,7 +296,40 @@ type NoticeReference struct {
 
 // Create a Certificate Policies Extension according to RFC5280.
 func NewCertificatePolicies(critical bool, policyIds []PolicyInfo) (*pkix.Extension, error) {
-	polBody, err := asn1.Marshal(policyIds)
+	//PolicyQualifierInfo always carries a qualifier next to its id. Marshalling
+	//PolicyQualifier directly would drop a user notice without any content,
+	//since it is the zero value of an optional field.
+	type policyQualifierInfo struct {
+		QualifierId asn1.ObjectIdentifier
+		Qualifier   asn1.RawValue
+	}
+	type policyInformation struct {
+		PolicyIdentifier asn1.ObjectIdentifier
+		Qualifiers       []policyQualifierInfo `asn1:"optional,omitempty"`
+	}
+
+	policies := make([]policyInformation, len(policyIds))
+	for i, policyId := range policyIds {
+		policies[i].PolicyIdentifier = policyId.ObjectIdentifier
+		for _, qualifier := range policyId.Qualifiers {
+			var qualifierRaw []byte
+			var err error
+			if len(qualifier.Cps) > 0 {
+				qualifierRaw, err = asn1.MarshalWithParams(qualifier.Cps, "ia5")
+			} else {
+				qualifierRaw, err = asn1.Marshal(qualifier.UserNotice)
+			}
+			if err != nil {
+				return nil, err
+			}
+			policies[i].Qualifiers = append(policies[i].Qualifiers, policyQualifierInfo{
+				QualifierId: qualifier.QualifierId,
+				Qualifier:   asn1.RawValue{FullBytes: qualifierRaw},
+			})
+		}
+	}
+
+	polBody, err := asn1.Marshal(policies)
 
 	if err != nil {
 		return nil, err
